@@ -87,6 +87,12 @@ def check_stream(rec: Rec, case: dict) -> None:
     def only_later(quiet, quiet_cuts) -> bool:
         """One run rejected, the other is still waiting for the end of a line / header block: is the verdict merely later?
         Complete the pending element for the quiet run; it must then reject too without delivering anything more."""
+        # ... which presupposes that something IS pending: a run that has consumed the whole stream and would parse a fresh
+        # message next has accepted what the other run rejected
+        fresh = b"GET /zz HTTP/1.1\r\nHost: a\r\n\r\n" if pk == "request" else b"HTTP/1.1 204 No Content\r\n\r\n"
+        probe = drive(pk, stream + fresh, tuple(quiet_cuts) + (n,), **kw)
+        if probe.error is None and len(probe.messages) == len(quiet.messages) + 1:
+            return False
         for suffix in (b"\r\n\r\n", b"\r\n", b"\n\r\n\r\n"):
             probe = drive(pk, stream + suffix, tuple(quiet_cuts) + (n,), **kw)
             if probe.error is not None and len(probe.messages) == len(quiet.messages):
@@ -175,10 +181,32 @@ def response_cases(draw):
     stream = rs["bytes"]
     if draw(st.integers(0, 4)) == 0 and len(stream) > 3:
         stream = stream[: draw(st.integers(1, len(stream) - 1))]
+    # line-ending damage (the lax response parser tolerates some of it; whatever it decides must not depend on the cuts)
+    muts = draw(st.lists(st.tuples(st.sampled_from(["cr_before_eol", "drop_cr", "dup_lf", "sp_before_eol", "cr_anywhere"]), st.integers(0, 10 ** 6)), max_size=2)
+                if draw(st.integers(0, 2)) == 0 else st.just([]))
+    for kind, r in muts:
+        stream = eol_damage(stream, kind, r)
     limits = draw(st.sampled_from(LIMITS))
     read_limit = draw(st.sampled_from([2 ** 20, 2 ** 20, 8]))
     return {"kind": "response-strict" if strict else "response-lax", "limits": limits, "stream": stream,
-            "cls": "resp-lf" if lf else "resp", "edges": [], "read_limit": read_limit}
+            "cls": ("resp-lf" if lf else "resp") + ("-eol-damage" if muts else ""), "edges": [], "read_limit": read_limit}
+
+
+def eol_damage(stream: bytes, kind: str, r: int) -> bytes:
+    lfs = [i for i, b in enumerate(stream) if b == 0x0A]
+    if kind == "cr_anywhere" or not lfs:
+        i = r % (len(stream) + 1)
+        return stream[:i] + b"\r" + stream[i:]
+    i = lfs[r % len(lfs)]
+    if kind == "cr_before_eol":
+        j = i - 1 if i > 0 and stream[i - 1] == 0x0D else i
+        return stream[:j] + b"\r" + stream[j:]
+    if kind == "drop_cr":
+        return stream[: i - 1] + stream[i:] if i > 0 and stream[i - 1] == 0x0D else stream
+    if kind == "dup_lf":
+        return stream[:i] + b"\n" + stream[i:]
+    j = i - 1 if i > 0 and stream[i - 1] == 0x0D else i
+    return stream[:j] + b" " + stream[j:]
 
 
 @st.composite
@@ -269,6 +297,44 @@ def compressed_streams() -> list[dict]:
     return out
 
 
+def eol_streams() -> list[dict]:
+    """Every single line-ending damage (extra CR, missing CR, doubled LF, space before the line end, a CR at any offset) in
+    fixed chunked / Content-Length / LF-only messages, for the strict and the lax parsers; cuts around every CR and LF."""
+    resp = (b"HTTP/1.1 200 OK\r\nTransfer-Encoding: chunked\r\nX: y\r\n\r\n5\r\nhello\r\n3;e=1\r\nabc\r\n0\r\nT: v\r\n\r\n"
+            b"HTTP/1.1 204 No Content\r\n\r\n")
+    resp_cl = b"HTTP/1.1 200 OK\r\nContent-Length: 5\r\nX: y\r\n\r\nhelloHTTP/1.1 204 No Content\r\n\r\n"
+    req = (b"POST /a HTTP/1.1\r\nHost: a\r\nTransfer-Encoding: chunked\r\n\r\n5\r\nhello\r\n3;e=1\r\nabc\r\n0\r\nT: v\r\n\r\n"
+           b"GET /next HTTP/1.1\r\nHost: a\r\n\r\n")
+    out = []
+    for name, base, kinds in (("resp-chunked", resp, ("response-lax", "response-strict")), ("resp-cl", resp_cl, ("response-lax", "response-strict")),
+                              ("resp-chunked-lf", resp.replace(b"\r\n", b"\n"), ("response-lax",)), ("req-chunked", req, ("request",))):
+        nlf = base.count(b"\n")
+        variants = {base}
+        for kind in ("cr_before_eol", "drop_cr", "dup_lf", "sp_before_eol"):
+            for r in range(nlf):
+                variants.add(eol_damage(base, kind, r))
+        for r in range(len(base) + 1):
+            variants.add(eol_damage(base, "cr_anywhere", r))
+        for v in sorted(variants):
+            for k in kinds:
+                out.append({"kind": k, "stream": v, "cls": f"eol-damage/{name}", "limits": {}, "exhaustive_max": 0})
+    return out
+
+
+def unit_eol(rec: Rec, shard: int, nshards: int) -> None:
+    for i, case in enumerate(eol_streams()):
+        if i % nshards != shard:
+            continue
+        try:
+            body(rec, case)
+        except Violation as v:
+            if v.key in rec.muted:
+                continue
+            rec.fail(v.key, v.msg, case)
+            rec.muted.add(v.key)
+    rec.exhaustive = True
+
+
 def unit_compressed(rec: Rec, shard: int, nshards: int) -> None:
     for i, case in enumerate(compressed_streams()):
         if i % nshards != shard:
@@ -299,6 +365,8 @@ def units(tier: str, seed: int) -> list[Unit]:
         us.append(Unit(f"limits{i}", unit_limits, {"n": n * 2, "offset": 80 + i}))
     for sh in range(3):
         us.append(Unit(f"compressed{sh}", unit_compressed, {"shard": sh, "nshards": 3}))
+    for sh in range(3):
+        us.append(Unit(f"eol{sh}", unit_eol, {"shard": sh, "nshards": 3}))
     return us
 
 
